@@ -104,7 +104,10 @@ struct KrylovObserver : CheckpointObserver
     std::vector<Violation>* out = nullptr;
     KrylovStats stats;
     bool in_solver = true;    // checkpoints come from a solver run: factorize/restart checkpoints are at full dimension
-    long expected_k = -1;     // set by direct drivers: advertised dimension at the next checkpoint (-1: unknown)
+    long expected_k = -1;     // advertised dimension expected at the next checkpoint of any kind (-1: unknown)
+    long expect_kind[CK_COUNT] = {-1, -1, -1, -1, -1};  // ... per checkpoint kind (direct drivers)
+    bool general = false;     // Arnoldi (general) family: no verdict in the known-finding regimes (many restarts, breakdown)
+    long compress_since_init = 0, expands_since_init = 0, skipped_known_regime = 0;
     void on_checkpoint(int kind, const spectra_verif::FacView& v) override;
 };
 
